@@ -66,6 +66,9 @@ func (m *DomainMatcher) Add(labels [][]byte) {
 			currentNode.AddLeaf(label)
 		} else {
 			child := currentNode.GetOrAddChild(label)
+			if child == nil {
+				return // a broader entry already matches this and all its sub domains
+			}
 			currentNode = child
 		}
 	}
@@ -102,12 +105,13 @@ func (n *labelNode) AddLeaf(label []byte) {
 	}
 }
 
+// GetOrAddChild returns nil if label is already a leaf of n.
 func (n *labelNode) GetOrAddChild(label []byte) *labelNode {
 	l := len(label)
 	if l <= 24 {
 		var key [24]byte
 		copy(key[:], label)
-		if child := n.s[key]; child != nil {
+		if child, ok := n.s[key]; ok {
 			return child
 		}
 		if n.s == nil {
@@ -118,7 +122,7 @@ func (n *labelNode) GetOrAddChild(label []byte) *labelNode {
 		return child
 	}
 
-	if child := n.l[string(label)]; child != nil { // this convert does not allocate
+	if child, ok := n.l[string(label)]; ok { // this convert does not allocate
 		return child
 	}
 	if n.l == nil {
